@@ -63,7 +63,7 @@ func storesToField(fn *ssa.Function, fv *types.Var) []ssa.Instruction {
 }
 
 func checkC20(c *Ctx) {
-	c.Explanation = "Every classification table of the library (the two init-built MSM maps, the MSM4/MSM7/MSM predicates, GetConstellation, the MSM-type acceptance switch of the header reader, the family gates of the MSM4 and MSM7 decoders, the timestamp guard of the single-frame decoder, the dispatch of Analyse, displayable, the MessageType constants and the title table) is extracted from the SSA of the current source by set-wise abstract interpretation over the complete domain {-2,-1,0..4095} (4098 values, every branch condition interpreted as a set operation; an unrecognised condition in a classifier fails the check) and compared with the other tables and with the oracle sets.  Exhaustive over the type domain.  The display entry point skips the analysis only for a message that has been analysed already (T7 guard), so decoding is attempted for every message of the decodable types. (T12) the value that is classified is the leader helper's unsigned 12-bit read at bit 24."
+	c.Explanation = "Every classification table of the library (the two init-built MSM maps, the MSM4/MSM7/MSM predicates, GetConstellation, the MSM-type acceptance switch of the header reader, the family gates of the MSM4 and MSM7 decoders, the timestamp guard of the single-frame decoder, the dispatch of Analyse, displayable, the MessageType constants and the title table) is extracted from the SSA of the current source by set-wise abstract interpretation over the complete domain {-2,-1,0..4095} (4098 values, every branch condition interpreted as a set operation; an unrecognised condition in a classifier fails the check) and compared with the other tables and with the oracle sets.  Exhaustive over the type domain.  The display entry point skips the analysis only for a message that has been analysed already (T7 guard), so decoding is attempted for every message of the decodable types. (T12) the value that is classified is the leader helper's unsigned 12-bit read at bit 24. T12 also contains the C01-R7 rules: the stream path delivers the single-frame decoder's classification unchanged."
 	c.NotDecided = "that the display and decode functions reached through these tables terminate normally (C07); wording of titles."
 	c.Extra["exhaustive"] = true
 	c.Extra["domain_size"] = tyN
@@ -341,9 +341,11 @@ func checkC20(c *Ctx) {
 	// ---- C06-S3 shares the dispatch tables; evaluated here as a sibling check
 	checkTimeDispatch(c, T, or, "C20-T11")
 
-	// T12: the value that is classified is the unsigned 12-bit field of the leader
+	// T12: the value that is classified is the unsigned 12-bit field of the leader, and the stream
+	// path delivers the decoder's classification unchanged (C01-R7 rules)
 	if f := newFraming(c, "C20-T12"); f != nil {
 		f.ruleHelperGates("C20-T12")
+		conservationRules(f, "C20-T12", consOpts{returns: true, fetchO: fetchOpts{leaderOK: true, skipPairing: true}})
 	}
 	c.MinInstances("C20-T8", 19)
 	c.MinInstances("C20-T1", 2)
